@@ -15,7 +15,7 @@ Three layers are modelled.
   `np.moveaxis`/`.T` followed by `np.ascontiguousarray` do.
 * **The FITS paths of `write_field`/`read_field`/`write_mode_basis`/`read_mode_basis`.**  A file is
   an optional image (primary HDU) plus the embedded tree.  The main definitions model the code
-  *after* the repairs proposed in `pending_fixes/` (D14, D19, D30); the behaviour of the
+  *after* the repairs proposed in `pending_fixes/` (D14, D19, D160); the behaviour of the
   unrepaired tree is kept as `readFieldFitsOld`, `writeBasisFitsOld`, `readBasisFitsOld`.
 
 Not modelled: the ASDF / FITS / pickle byte formats, NaN and infinities, byte order other than the
@@ -481,7 +481,7 @@ def readFieldFitsOld (file : FitsFile) : Except Err Field := do
   let v' ← f.values.reshape newShape
   .ok { f with values := v' }
 
-/-- `write_mode_basis(b, 'x.fits')` after the repair of D30: on a separated grid of non-zero
+/-- `write_mode_basis(b, 'x.fits')` after the repair of D160: on a separated grid of non-zero
 size the dense matrix is stored as an image with axes (mode, tensor…, grid…).  A separated grid
 that is not regular has no `delta`: `ValueError` before anything is written. -/
 def writeBasisFits (b : ModeBasis) : Except Err FitsFile := do
@@ -497,7 +497,7 @@ def writeBasisFits (b : ModeBasis) : Except Err FitsFile := do
       else if g.coords.isRegular then .ok ⟨some img, t.erase .tm⟩ else .error .value
     else .ok ⟨none, t⟩
 
-/-- `read_mode_basis('x.fits')` after the repairs of D14 (native byte order) and D30. -/
+/-- `read_mode_basis('x.fits')` after the repairs of D14 (native byte order) and D160. -/
 def readBasisFits (file : FitsFile) : Except Err ModeBasis :=
   match file.image with
   | some img => do
